@@ -67,6 +67,13 @@ class Store(object):
         self.seq = collections.Counter()          # parent path -> next sequence number
         self.next_session = 1
         self.live = set()
+        # sub-second part of the write clock (ZooKeeper stamps milliseconds): within one virtual second the
+        # nodes register presence at +200 ms (the harness lowers `ms_off` while it does that) and everything
+        # else - the master's writes in particular - happens at +500 ms
+        self.ms_off = 500
+
+    def _now(self):
+        return self.clock() + self.ms_off
 
     # -- copying ---------------------------------------------------------------------------
     def clone(self, clock=None):
@@ -77,6 +84,7 @@ class Store(object):
         s.seq = collections.Counter(self.seq)
         s.next_session = self.next_session
         s.live = set(self.live)
+        s.ms_off = self.ms_off
         return s
 
     # -- sessions --------------------------------------------------------------------------
@@ -107,7 +115,7 @@ class Store(object):
 
     def _create(self, path, data, owner=None):
         self.zxid += 1
-        self.nodes[path] = Rec(data, self.clock(), self.zxid, owner)
+        self.nodes[path] = Rec(data, self._now(), self.zxid, owner)
         self.kids[path] = set()
         self.kids[self.parent(path)].add(path.rsplit('/', 1)[1])
 
@@ -115,7 +123,7 @@ class Store(object):
         self.zxid += 1
         r = self.nodes[path]
         r.data = data
-        r.mtime = self.clock()
+        r.mtime = self._now()
         r.mzxid = self.zxid
         r.version += 1
 
